@@ -5,9 +5,11 @@
   event-log replay of every shadow run.
 
   PROVED (`C03_linearizable`): for every key type and strict weak order, every initial tree
-  satisfying the structural, ordering and separator invariants (in particular a fresh tree),
-  every finite family of client programs that respect the cursor discipline (Insert, Update,
-  Delete, Search, and cursor sessions alongside), EVERY number of threads and EVERY schedule:
+  satisfying the structural, ordering and separator invariants (in particular a fresh tree of
+  any even order ≥ 2), every finite family of client programs that respect the cursor
+  discipline (Insert, Update, Delete, Search, and cursor sessions alongside) — where the order
+  is at least 4 or no program contains a Delete (`hdel`; at order 2 a Delete panics) —
+  EVERY number of threads and EVERY schedule:
   the history of invocations and responses recorded in the log (`history c`: an Update's
   response carries the argument its callback received) is linearizable in the sense of
   Herlihy and Wing with respect to the map specification `Spec` — `Lin.Linearizable`: some
@@ -47,22 +49,25 @@ variable {K V : Type}
 theorem C03_linearizable (lt : K → K → Bool) (P : Params K) (tree : Tree K V) (progs : List (List (COp K V)))
     (hkp : KParams lt P) (ht : TreeOk none tree) (hord : OrdTree lt tree) (hsep : SepTree lt tree)
     (ho : tree.order = P.order) (hp : PadOk P) (hd : Disciplined progs)
+    (hdel : 4 ≤ tree.order ∨ NoDelete progs)
     (c : Config K V) (hr : Reachable (Config.init P tree progs) c) :
     Lin.Linearizable lt tree.abs (history c) :=
-  linearizable_full' lt P tree progs hkp ht hord hsep ho hp hd c hr
+  linearizable_full' lt P tree progs hkp ht hord hsep ho hp hd hdel c hr
 
 /-- **C03: the invariants behind it hold in every reachable configuration**: structure
     (`CInv`), key order and thread positions (`KInv`), separators (`ISep`). -/
 theorem C03_invariants (lt : K → K → Bool) (P : Params K) (tree : Tree K V) (progs : List (List (COp K V)))
     (hkp : KParams lt P) (ht : TreeOk none tree) (hord : OrdTree lt tree) (hsep : SepTree lt tree)
     (ho : tree.order = P.order) (hp : PadOk P) (hd : Disciplined progs)
+    (hdel : 4 ≤ tree.order ∨ NoDelete progs)
     (c : Config K V) (hr : Reachable (Config.init P tree progs) c) : KFInv lt c :=
-  reachable_kfinv' lt P tree progs hkp ht hord hsep ho hp hd c hr
+  reachable_kfinv' lt P tree progs hkp ht hord hsep ho hp hd hdel c hr
 
-/-- a fresh tree satisfies all three initial-tree hypotheses, for every order and comparison -/
-theorem C03_fresh_tree_ok (lt : K → K → Bool) (o : Nat) (h4 : 4 ≤ o) (he : o % 2 = 0) :
+/-- a fresh tree satisfies all three initial-tree hypotheses, for every even order ≥ 2 and
+    every comparison -/
+theorem C03_fresh_tree_ok (lt : K → K → Bool) (o : Nat) (h2 : 2 ≤ o) (he : o % 2 = 0) :
     TreeOk none (Tree.new o : Tree K V) ∧ OrdTree lt (Tree.new o : Tree K V) ∧ SepTree lt (Tree.new o : Tree K V) :=
-  ⟨new_treeOk o h4 he, new_ordTree lt o, new_sepTree lt o⟩
+  ⟨new_treeOk o h2 he, new_ordTree lt o, new_sepTree lt o⟩
 
 /-- **C03 (programs without Delete): linearizable under every schedule.** -/
 theorem C03_linearizable_nodelete_partial (lt : K → K → Bool) (P : Params K) (tree : Tree K V)
@@ -96,6 +101,40 @@ example : KParams (fun a b : Nat => decide (a < b)) (Params.mk (fun a b => decid
   · intro a b c h1 h2; simp at *; omega
   · intro a b c h1; simp at *; omega
   · exact ⟨List.Pairwise.nil, fun k hk => by cases hk⟩
+  · intro k h; simp at h
+  · intro p hp; simp at hp; rcases hp with rfl | rfl <;> rfl
+  · intro p hp op hop; simp at hp; rcases hp with rfl | rfl <;> simp at hop <;> rcases hop with rfl | rfl <;> rfl
+
+/-- the hypotheses are satisfiable at ORDER 2 as well: a fresh tree of order 2 over `Nat` with
+    `<` and a Delete-free program family satisfy every hypothesis of `C03_linearizable`
+    (`hdel` by its right disjunct) -/
+example : KParams (fun a b : Nat => decide (a < b)) (Params.mk (fun a b => decide (a < b)) (fun _ => some 0) 2) ∧
+    TreeOk none (Tree.new 2 : Tree Nat Nat) ∧ OrdTree (fun a b : Nat => decide (a < b)) (Tree.new 2 : Tree Nat Nat) ∧
+    SepTree (fun a b : Nat => decide (a < b)) (Tree.new 2 : Tree Nat Nat) ∧
+    (Tree.new 2 : Tree Nat Nat).order = (Params.mk (fun a b : Nat => decide (a < b)) (fun _ => some 0) 2).order ∧
+    PadOk (Params.mk (fun a b : Nat => decide (a < b)) (fun _ => some 0) 2) ∧
+    Disciplined [[COp.ins 1 1, COp.upd 1 (fun _ => 2) false], [COp.get (K := Nat) (V := Nat) 1]] ∧
+    (4 ≤ (Tree.new 2 : Tree Nat Nat).order ∨
+      NoDelete [[COp.ins 1 1, COp.upd 1 (fun _ => 2) false], [COp.get (K := Nat) (V := Nat) 1]]) := by
+  obtain ⟨h1, h2, h3⟩ := C03_fresh_tree_ok (K := Nat) (V := Nat) (fun a b : Nat => decide (a < b)) 2 (by omega) (by omega)
+  refine ⟨⟨⟨?_, ?_, ?_⟩, rfl⟩, h1, h2, h3, rfl, ?_, ?_, Or.inr ?_⟩
+  · intro a; simp
+  · intro a b c h1 h2; simp at *; omega
+  · intro a b c h1; simp at *; omega
+  · intro k h; simp at h
+  · intro p hp; simp at hp; rcases hp with rfl | rfl <;> rfl
+  · intro p hp op hop; simp at hp; rcases hp with rfl | rfl <;> simp at hop <;> rcases hop with rfl | rfl <;> rfl
+
+/-- hence at order 2, for a Delete-free family, every reachable history is linearizable -/
+example (c : Config Nat Nat)
+    (hr : Reachable (Config.init (Params.mk (fun a b : Nat => decide (a < b)) (fun _ => some 0) 2) (Tree.new 2)
+      [[COp.ins 1 1, COp.upd 1 (fun _ => 2) false], [COp.get (K := Nat) (V := Nat) 1]]) c) :
+    Lin.Linearizable (fun a b : Nat => decide (a < b)) (Tree.new 2 : Tree Nat Nat).abs (history c) := by
+  obtain ⟨h1, h2, h3⟩ := C03_fresh_tree_ok (K := Nat) (V := Nat) (fun a b : Nat => decide (a < b)) 2 (by omega) (by omega)
+  refine C03_linearizable _ _ _ _ ⟨⟨?_, ?_, ?_⟩, rfl⟩ h1 h2 h3 rfl ?_ ?_ (Or.inr ?_) c hr
+  · intro a; simp
+  · intro a b c h1 h2; simp at *; omega
+  · intro a b c h1; simp at *; omega
   · intro k h; simp at h
   · intro p hp; simp at hp; rcases hp with rfl | rfl <;> rfl
   · intro p hp op hop; simp at hp; rcases hp with rfl | rfl <;> simp at hop <;> rcases hop with rfl | rfl <;> rfl
